@@ -55,11 +55,12 @@ pub fn run(s: &Session) {
         the specification allows) only on protocols where it holds agency and after the initiator's message was confirmed. \
         Every emitted Send is judged against the per-(peer, protocol) specification state at emission time. (1) exhaustive, \
         fingerprint-de-duplicated BFS of all schedules up to the depth bound after the canonical handshake prefix, 1 peer, \
-        protocol versions 13 and 15 (Leios); (2) random schedules of up to 300 steps over 3 peers. Non-trivial = >= 2 \
+        protocol versions 13, 14 and 15 (Leios); (2) random schedules of up to 300 steps over 3 peers. Non-trivial = >= 2 \
         initiator messages on the wire and >= 1 responder reply; distinct = distinct state fingerprint / distinct schedule");
     s.assume("wire order of messages to one peer equals emission order (the TCP interface serialises writes per peer)");
     let mode = Mode { check_wire: true, check_sets: false };
-    for (name, version) in [("exhaustive-v13", 13u64), ("exhaustive-v15-leios", 15)] {
+    // 14 is the last version without the Leios mini-protocols: nothing of leios-notify / leios-fetch may be emitted there
+    for (name, version) in [("exhaustive-v13", 13u64), ("exhaustive-v14", 14), ("exhaustive-v15-leios", 15)] {
         let cfg = Cfg { peers: 1, max_peers: 2, max_warm: 1, max_hot: 1, max_error_count: 1, version, accept_peer_sharing: 1 };
         let (st, tr) = bfs(s, name, &cfg, &prefix(), &alphabet(), s.pick(7, 9), &mode, &interesting);
         s.note(&format!("{name}_states"), serde_json::json!(st));
@@ -81,7 +82,7 @@ pub fn run(s: &Session) {
         s.note(&format!("{name}_states"), serde_json::json!(st));
         s.note(&format!("{name}_transitions"), serde_json::json!(tr));
     }
-    for (name, version) in [("random-v13", 13u64), ("random-v15-leios", 15)] {
+    for (name, version) in [("random-v13", 13u64), ("random-v14", 14), ("random-v15-leios", 15)] {
         let cfg = Cfg { peers: 3, max_peers: 3, max_warm: 3, max_hot: 2, max_error_count: 2, version, accept_peer_sharing: 1 };
         s.forall(
             name,
